@@ -202,7 +202,7 @@ fn membership_sums(cl: &mut Cluster, when: &str, out: &mut Outcome) -> Result<Ve
 
 fn validate(sc: &Scenario) -> Result<(), String> {
     let ids: BTreeSet<u8> = sc.cfg.nodes.iter().map(|n| n.id).collect();
-    if ids.len() < 1 || ids.len() > 6 || ids.len() != sc.cfg.nodes.len() {
+    if ids.len() < 1 || ids.len() > 8 || ids.len() != sc.cfg.nodes.len() {
         return Err("bad node set".into());
     }
     let last = sc.events.iter().map(|e| e.t()).max().unwrap_or(0);
@@ -1715,7 +1715,12 @@ impl Check for C01 {
             5 => return serde_json::to_value(gen_real_scenario(&mut rng)).unwrap(),
             _ => {},
         }
-        let k = GenKnobs { max_nodes: 5, max_ops: 40, span_ms: 25_000, level_bias_none: 0.4, ghosts: 0.2, big_bulk: 0.05 };
+        // thorough tier: a third of these cases are deeper (up to 8 nodes, 90 operations, 60 s)
+        let k = if tier == Tier::Thorough && mix(0xDEE9, idx) % 3 == 0 {
+            GenKnobs { max_nodes: 8, max_ops: 90, span_ms: 60_000, level_bias_none: 0.4, ghosts: 0.2, big_bulk: 0.05 }
+        } else {
+            GenKnobs { max_nodes: 5, max_ops: 40, span_ms: 25_000, level_bias_none: 0.4, ghosts: 0.2, big_bulk: 0.05 }
+        };
         serde_json::to_value(gen_cluster_scenario(&mut rng, &k)).unwrap()
     }
     fn isolate(&self, scenario: &Value) -> bool {
